@@ -47,8 +47,8 @@ AddClauses(e) ==
       widens == Widens(pre, t)
       badopt == mode \notin {"silence", "warning", "error"}
       mayRaise == (mode = "error" /\ widens) \/ badopt
-  IN [ C12_duplicate_name_rejected |-> (dup /\ ~badopt) => e.st = "TierNameExistsError",
-       C13_invalid_option_value_rejected |-> badopt => (~OkE(e) /\ e.pe),
+  IN [ C12_duplicate_name_rejected |-> dup => ~OkE(e),            \* "is rejected": the statement names no exception class
+       C13_invalid_option_value_rejected |-> badopt => ~OkE(e),
        C12_add_succeeds |-> (~dup /\ ~mayRaise) => OkE(e),
        C12_add_order_is_list_model |-> (~dup /\ OkE(e)) => Names(post) = ListInsert(Names(pre), idx, t.name),
        C12_add_maps_name_to_tier |-> (~dup /\ OkE(e)) => (HasName(post, t.name) /\ TierNamed(post, t.name) = t /\ SameMapExcept(pre, post, t.name)),
@@ -68,7 +68,7 @@ RenameClauses(e) ==
       present == HasName(pre, old)
       clash == present /\ new # old /\ HasName(pre, new)
   IN [ C12_rename_absent_raises |-> (~present) => ~OkE(e),
-       C12_duplicate_name_rejected |-> clash => e.st = "TierNameExistsError",
+       C12_duplicate_name_rejected |-> clash => ~OkE(e),
        C12_rename_order_is_list_model |-> (present /\ ~clash) =>
             (OkE(e) /\ Names(post) = [i \in Idx(pre.tiers) |-> IF pre.tiers[i].name = old THEN new ELSE pre.tiers[i].name]),
        C12_rename_keeps_tier_content |-> (present /\ ~clash /\ OkE(e)) =>
@@ -83,7 +83,7 @@ ReplaceClauses(e) ==
       mayRaise == (mode = "error" /\ Widens(pre, t)) \/ badopt
   IN [ C12_replace_absent_raises |-> (~present) => ~OkE(e),
        C13_invalid_option_value_rejected |-> badopt => ~OkE(e),
-       C12_duplicate_name_rejected |-> (clash /\ ~badopt) => e.st = "TierNameExistsError",
+       C12_duplicate_name_rejected |-> clash => ~OkE(e),
        C12_replace_succeeds |-> (present /\ ~clash /\ ~mayRaise) => OkE(e),
        C12_replace_order_is_list_model |-> (present /\ ~clash /\ OkE(e)) =>
             Names(post) = [i \in Idx(pre.tiers) |-> IF pre.tiers[i].name = n THEN t.name ELSE pre.tiers[i].name],
@@ -115,7 +115,7 @@ EraseTgClauses(e) ==
   LET a == e.args.a  b == e.args.b  shrink == e.args.shrink
       d == IF shrink THEN b - a ELSE 0
       prevalid == ValidTg(e.pre)
-  IN [ C07_textgrid_erase_rejects_degenerate_region |-> (a >= b) => (~OkE(e) /\ e.pe),
+  IN [ C07_textgrid_erase_rejects_degenerate_region |-> (a >= b) => ~OkE(e),
        C12_erase_every_tier_shares_span |-> (RetTg(e) /\ prevalid /\ A2(e)) => (\A i \in Idx(e.ret.tiers) : e.ret.tiers[i].lo = e.ret.lo /\ e.ret.tiers[i].hi = e.ret.hi),
        C12_erase_validate_true |-> (RetTg(e) /\ prevalid) => e.valid,
        C12_erase_span |-> (RetTg(e) /\ A2(e)) => (e.ret.lo = e.pre.lo /\ e.ret.hi = e.pre.hi - d) ]
